@@ -29,7 +29,7 @@ from pyvc.bounded import Recorder, rng
 
 from bounded.c11_enumeration import (
     C, CH, CU, FL, ONE, SP, S2, S22, S3, SF, SM, SN, SNM, PRELUDE, accepts,
-    LOCS, build, dsrc, flat, handpicked_roots, has_kind, is_finite, leaf, members,
+    LOCS, build, count_members, depth_of, dsrc, flat, gen_dps, handpicked_roots, has_kind, is_finite, leaf, members,
     mk, shape, src, tkey, wit)
 
 PROP = 'C12'
@@ -75,6 +75,10 @@ def named_specs():
 
 def view_specs(tier, r):
   specs = named_specs() + [m for m in handpicked_roots()]
+  # seeded random specs of the exhaustive C11 family (weight <= 4)
+  pool = [m for m in gen_dps(4, 3, 3, 3) if depth_of(m) >= 2
+          and count_members(m) <= 400]
+  specs += [SP(m) for m in r.sample(pool, 6 if tier == 'quick' else 60)]
   return specs
 
 
@@ -591,12 +595,13 @@ def drv_numbers_and_json(tier, seed):
   rec = Recorder(
       PROP, 'to_numbers / from_numbers / nested numbers / JSON are lossless',
       scope=('13 named/literal/conditional/float/custom specs + 32 hand-picked '
+             '+ 6 (thorough 60) seeded random conditional specs of weight<=4; '
              'specs (multi-element roots, inlined multi-choices, depth<=3, bare '
-             'decision-point roots); members: all up to a cap (quick 5, '
-             'thorough 24) else first/last + seeded sample; views: flat, '
+             'decision-point roots); members: all up to a cap (quick 10, '
+             'thorough 60) else first/last + seeded sample; views: flat, '
              'nested, JSON compact/verbose as object and as string'))
   r = rng(seed, 'c12.numbers')
-  cap = 5 if tier == 'quick' else 24
+  cap = 10 if tier == 'quick' else 60
   t0 = time.time()
   budget = 38 if tier == 'quick' else 500
   for m in view_specs(tier, r):
@@ -613,7 +618,7 @@ def drv_numbers_and_json(tier, seed):
 def drv_dict_views(tier, seed):
   rec = Recorder(
       PROP, 'to_dict content, from_dict round trip and lookups',
-      scope=('same 45 specs; members: all up to a cap (quick 6, thorough 20) '
+      scope=('same specs as drv_numbers_and_json; members: all up to a cap (quick 6, thorough 40) '
              'else seeded sample; to_dict content under all 3 key types x 5 '
              'value types x 3 multi_choice_key x include_inactive (90 '
              'combinations) for every sampled member; from_dict round trip: '
@@ -623,8 +628,8 @@ def drv_dict_views(tier, seed):
              'd[name], spec[id], spec[name] for every decision point incl. '
              'inactive ones and multi-choice parents'))
   r = rng(seed, 'c12.dict')
-  cap = 6 if tier == 'quick' else 20
-  window = 3 if tier == 'quick' else 12
+  cap = 6 if tier == 'quick' else 40
+  window = 3 if tier == 'quick' else 16
   t0 = time.time()
   budget = 40 if tier == 'quick' else 540
   rot = 0
@@ -745,8 +750,8 @@ def drv_alignment(tier, seed):
   r = rng(seed, 'c12.align')
   t0 = time.time()
   budget = 40 if tier == 'quick' else 540
-  n_start = 3 if tier == 'quick' else 10
-  chains = 3 if tier == 'quick' else 14
+  n_start = 4 if tier == 'quick' else 10
+  chains = 4 if tier == 'quick' else 14
   specs = alignment_specs()
 
   def audit(m, spec, x, source, make_x):
